@@ -167,3 +167,28 @@ T("c20-merge-handlers", ["C20"], LP, "        except OSError as e:  # e.g. Conne
 T("c10-range-form", ["C10"], RP, "            for height in range(start_height, min(start_height + GET_BLOCKS_INVENTORY_SIZE, max_height))", "            for height in range(start_height, min(max_height, GET_BLOCKS_INVENTORY_SIZE + start_height))")
 T("c20-dispatch-elif", ["C20", "C10"], RP, "        if message.data_type == DATA_BLOCK:\n            return self.handle_block_received(header, message)\n\n        if message.data_type == DATA_TRANSACTION:\n            return self.handle_transaction_received(header, message)\n",
   "        if message.data_type == DATA_BLOCK:\n            return self.handle_block_received(header, message)\n        elif message.data_type == DATA_TRANSACTION:\n            return self.handle_transaction_received(header, message)\n")
+
+# ------------------------------------------------------------------------------------------- broad twins (all properties must stay silent)
+ALL = ["C%02d" % i for i in range(1, 21)]
+T("all-rename-param-consensus", ALL, CONS,
+  "def validate_block_in_coinstate(block: Block, coinstate: CoinState) -> None:\n    if block.height <= MAX_KNOWN_HASH_HEIGHT:\n        if block.height in KNOWN_HASHES:\n            if block.hash() != computer(KNOWN_HASHES[block.height]):",
+  "def validate_block_in_coinstate(blk: Block, state: CoinState) -> None:\n    block = blk\n    coinstate = state\n    if blk.height <= MAX_KNOWN_HASH_HEIGHT:\n        if blk.height in KNOWN_HASHES:\n            if blk.hash() != computer(KNOWN_HASHES[blk.height]):")
+T("all-add-helper-and-logging", ALL, CONS,
+  "def validate_sashimi_range(value: int) -> None:",
+  "def _describe(value: int) -> str:\n    return \"%d sashimi\" % value\n\n\ndef validate_sashimi_range(value: int) -> None:\n    \"\"\"Reject amounts outside (0, MAX_SASHIMI].\"\"\"",
+  RP, "        block_hash = block.hash()\n        self.remove_from_inventory(block_hash)\n", "        block_hash = block.hash()\n        self.local_peer.logger.debug(\"%15s block %s\" % (self.host, human(block_hash)))\n        self.remove_from_inventory(block_hash)\n",
+  WAL, "    collected_value = 0\n    inputs = []\n", "    collected_value = 0\n    inputs = []  # inputs selected so far\n")
+T("all-extract-horizon-helper", ALL, CONS,
+  "def validate_block_in_coinstate(block: Block, coinstate: CoinState) -> None:\n    if block.height <= MAX_KNOWN_HASH_HEIGHT:\n        if block.height in KNOWN_HASHES:\n            if block.hash() != computer(KNOWN_HASHES[block.height]):\n                raise ValidationError(\"No forks allowed before block %s\" % MAX_KNOWN_HASH_HEIGHT)\n",
+  "def _check_checkpoint(block: Block) -> None:\n    if block.height in KNOWN_HASHES:\n        if block.hash() != computer(KNOWN_HASHES[block.height]):\n            raise ValidationError(\"No forks allowed before block %s\" % MAX_KNOWN_HASH_HEIGHT)\n\n\ndef validate_block_in_coinstate(block: Block, coinstate: CoinState) -> None:\n    if block.height <= MAX_KNOWN_HASH_HEIGHT:\n        _check_checkpoint(block)\n")
+T("all-inline-coinbase-instate", ALL, CONS,
+  "    coinbase_transaction = block.transactions[0]\n    validate_coinbase_transaction_in_coinstate(coinbase_transaction, block, coinstate)\n\n    for transaction in block.transactions[1:]:\n        validate_non_coinbase_transaction_in_coinstate(transaction, block.previous_block_hash, coinstate)",
+  "    validate_coinbase_transaction_in_coinstate(block.transactions[0], block, coinstate)\n\n    parent_hash = block.header.summary.previous_block_hash\n    for tx in block.transactions[1:]:\n        validate_non_coinbase_transaction_in_coinstate(tx, parent_hash, coinstate)")
+T("all-manager-refactor", ALL, MGR,
+  "    def get_state(self) -> Tuple[CoinState, List[Transaction]]:\n        with self.lock:\n            return self.coinstate, self.transaction_pool",
+  "    def get_state(self) -> Tuple[CoinState, List[Transaction]]:\n        with self.lock:\n            state = self.coinstate\n            pool = self.transaction_pool\n            return state, pool")
+T("all-new-unrelated-module-code", ALL, "skepticoin/utils.py", "def calc_work(target: bytes) -> int:", "def describe_block(block: Block) -> str:\n    return \"%s (%d transactions)\" % (block_filename(block), len(block.transactions))\n\n\ndef calc_work(target: bytes) -> int:")
+T("all-datatypes-repr-and-order", ALL, DT,
+  "    def __repr__(self) -> str:\n        return \"Output(%s, %s)\" % (self.value, self.public_key)\n", "    def __repr__(self) -> str:\n        return \"Output(value=%s, key=%s)\" % (self.value, self.public_key)\n\n    def is_dust(self) -> bool:\n        return self.value < 10\n")
+T("all-blockstore-local-names", ALL, BS,
+  "        cur = self.connection.cursor()\n        cur.execute('BEGIN TRANSACTION')", "        cursor = self.connection.cursor()\n        cur = cursor\n        cur.execute('BEGIN TRANSACTION')")
